@@ -49,6 +49,9 @@ DISPATCH = {
 
 
 def run(ctx, obs):
+    from ..rules.ranks import tie_averaged
+    for _fn in ('compare_spearman', 'compare_rho_a'):
+        tie_averaged(ctx, obs, 'rdm.compare.' + _fn)
     from ..rules import sweeps
     sweeps.run(ctx, obs, 'C03')
     prog = ctx.prog
